@@ -76,7 +76,15 @@ func unmarshalGuarded(b []byte, arch byte, bt basetype.BaseType, pt profile.Prof
 			out = "panic"
 		}
 	}()
-	return printOutcome(proto.UnmarshalValue(b, arch, bt, pt, arr))
+	// The decoder unmarshals out of a read buffer it overwrites with the next chunk: a value must own its
+	// memory. The input is scribbled over before the value is printed (seeded change C06-6: an array returned
+	// as a view of the input bytes).
+	in := append([]byte(nil), b...)
+	v, err := proto.UnmarshalValue(in, arch, bt, pt, arr)
+	for i := range in {
+		in[i] ^= 0xA5
+	}
+	return printOutcome(v, err)
 }
 
 // acceptMask: bit i is set when the i-th accessor returns something else than its wrong-type default
